@@ -83,7 +83,7 @@ CHECKS = {
         "keeps every row under contiguous indices. The implementation is checked on random heterogeneous compartments -> branches -> "
         "cells -> networks: every constituent row's parameters/states/channel flags survive, absent channels stay absent; a synapse-free "
         "network simulates each cell as alone, one-branch cell = branch, one-compartment branch = compartment; sibling/cell permutations "
-        "permute results; all accepting backends.",
+        "permute results; all accepting backends. At the whole-simulation model (Props/C12_Sim.lean): the channel part of a step is row-wise (sim_mech_rowwise_states / _terms), the voltage update of a synapse-free module is computed cell by cell (sim_step_v_blocks) and the block of cell k depends only on cell k's rows, geometry and stimuli (sim_step_cell_independent); assembled networks must simulate their tables (Lean model run from nodes / branch structure only), also when the constituents carry the same mechanisms inserted in a different order.",
    note=TRUST + "Mechanisms act row-wise by construction of the generated kernels; whole-run equality is measured (1e-8 relative). "
         "Refusals of the jaxley backends for networks of differently shaped cells are allowed."),
  "C15": dict(cat="other", ref="DESIGN.md §4 C15",
@@ -163,7 +163,7 @@ CHECKS = {
         "vanishing terms. On the implementation: networks of point neurons with random edge multisets (autapses, fan-in, 3 interleaved "
         "types) must match an independently computed closed-form step (state update with the PRE voltage, conversion with the POST "
         "area, implicit treatment); creation-order invariance; locality; zero-conductance isolation on irregular cells; edge / type "
-        "views set exactly the selected synapses.",
+        "views set exactly the selected synapses. At the whole-simulation model (Props/C09_Sim.lean): the synaptic terms handed to the solver for compartment c are the accumulation over exactly the edges whose listed post is c (sim_syn_terms_eq / _local / _none), the new state of an edge reads only its own row and the voltages of its listed pre and post compartments, a module without synapses gets zero synaptic terms; the real integrate of random point-neuron networks is compared with that model run from the edge table.",
    note=TRUST + "Closed form compared to 1e-7. Fixed: N12 (joint perturbation of pre and post voltage), F5."),
  "C19": dict(cat="proof", ref="DESIGN.md §4 C19",
    technique="Lean 4: pure state machine of the editing API with invariant preserved by every operation (induction over histories) + alpha-refinement checked after every operation",
